@@ -391,6 +391,78 @@ pub fn run(ctx: &RunCtx) -> i32 {
         }
         shared.merge(r);
     }
+    // the largest packets: in every state, requests and indications whose application list holds an UNKNOWN-ATTRIBUTES of n
+    // codes (alone, or after a 4-byte SOFTWARE), n swept so that the packet (20-byte header + attributes; the size is known
+    // from a small send in the same state) runs through the last 48 bytes up to the largest STUN message there is (65,552
+    // bytes: a 16-bit length field counting the attribute bytes, a multiple of four) and two sizes beyond, into a 70,000-byte
+    // buffer. Up to 65,552 bytes the packet is emitted whole and passes the same checks as every other packet; beyond, the
+    // send is refused and no packet appears.
+    {
+        let pad4 = |x: usize| (x + 3) / 4 * 4;
+        all_reps.par_iter().enumerate().for_each(|(ri, rp)| {
+            let mut r = Report::new();
+            for with_software in [false, true] {
+                for indication in [false, true] {
+                    if indication && matches!(rp.cfg.mech, Mech::LongTerm) {
+                        continue;
+                    }
+                    if (ri + with_software as usize) % 2 == 1 && !thorough {
+                        continue;
+                    }
+                    let list = |n: usize| -> Vec<L> {
+                        let mut l = vec![];
+                        if with_software {
+                            l.push(L::Software("abcd".into()));
+                        }
+                        l.push(L::UnknownAttributes((0..n).map(|x| (x as u16).wrapping_mul(7)).collect()));
+                        l
+                    };
+                    let send = |n: usize| -> (explore::Run, crate::e3::world::Obs, Arc<Vec<Vec<L>>>) {
+                        // (the history that reaches the state uses the empty application list)
+                        let a = Arc::new(vec![vec![], list(n)]);
+                        let mut run = explore::replay(&rp.cfg, &a, &Nop, &rp.prefix);
+                        let o = explore::step(&mut run, &Event::SendM { app: 1, method: 1, indication }, None);
+                        (run, o, a)
+                    };
+                    let (_, o0, _) = send(2);
+                    let Some(s0) = o0.events.iter().find_map(|e| if let OEv::Out { bytes, .. } = e { Some(bytes.len()) } else { None }) else { continue };
+                    let size = |n: usize| s0 - 4 + pad4(2 * n);
+                    let n_max = (0..=32_767usize).rev().find(|n| size(*n) <= 65_552).unwrap();
+                    for n in n_max.saturating_sub(24)..=(n_max + 3).min(32_767) {
+                        r.eval();
+                        let (run, o, a) = send(n);
+                        let outs: Vec<&Vec<u8>> = o.events.iter().filter_map(|e| if let OEv::Out { bytes, .. } = e { Some(bytes) } else { None }).collect();
+                        let replay = || json!({"kind": "packet", "state": rp.name, "config": rp.cfg.show(), "application_attributes": format!("{}UNKNOWN-ATTRIBUTES with {} codes (7*i mod 65536)", if with_software { "SOFTWARE 'abcd', " } else { "" }, n), "indication": indication, "buffer": 70000, "expected_packet_size": size(n)});
+                        let earlier: Vec<[u8; 12]> = run.w.reqs.iter().rev().skip(1).map(|q| q.id).collect();
+                        match (&o.res, size(n) <= 65_552) {
+                            (CallRes::Panic(p), _) => r.violate(format!("client-panics/{}", crate::util::panic_site(p)), p.clone(), replay()),
+                            (CallRes::SendOk(_) | CallRes::IndOk(_), true) => {
+                                if outs.len() != 1 {
+                                    r.violate("not-exactly-one-packet-per-send", format!("{}", outs.len()), replay());
+                                } else if outs[0].len() != size(n) {
+                                    r.violate(format!("largest-packets/packet-size-differs/{}", rp.name), format!("{} bytes, expected {}", outs[0].len(), size(n)), replay());
+                                } else {
+                                    match check_packet(rp, &a[1], outs[0], if indication { 1 } else { 0 }, 1, &earlier) {
+                                        Ok(()) => r.sym("largest-packets"),
+                                        Err((k, d)) => r.violate(format!("largest-packets/{}/{}", k, rp.name), d, replay()),
+                                    }
+                                }
+                            }
+                            (CallRes::SendErr(_) | CallRes::IndErr(_), false) => {
+                                if outs.is_empty() {
+                                    r.sym("beyond-the-largest-packet-refused");
+                                } else {
+                                    r.violate("largest-packets/refused-send-emits-a-packet", "", replay());
+                                }
+                            }
+                            (res, fits) => r.violate(format!("largest-packets/{}/{}", if fits { "send-fails" } else { "oversized-send-succeeds" }, rp.name), format!("{:?} at {} bytes", res, size(n)), replay()),
+                        }
+                    }
+                }
+            }
+            shared.merge(r);
+        });
+    }
     let n_reps = all_reps.len();
     // (representative, list index) pairs in parallel
     let work: Vec<(usize, usize)> = (0..all_reps.len()).flat_map(|r| (0..n_lists).map(move |l| (r, l))).collect();
@@ -478,9 +550,9 @@ pub fn run(ctx: &RunCtx) -> i32 {
         rep,
         Finish {
             level: "model_checking",
-            rule: format!("{} application attribute lists (every sequence of length <= {} over a 12-entry alphabet: two SOFTWARE values, PRIORITY, and pre-populated USERNAME / REALM / NONCE / USERHASH / PASSWORD-ALGORITHM / PASSWORD-ALGORITHMS / MESSAGE-INTEGRITY / MESSAGE-INTEGRITY-SHA256 / FINGERPRINT) x {} credential-state representatives (15 states reached by replaying short histories on the real client: no mechanism; short-term unlearned / learned MI / learned SHA256 / configured MI / SHA256; long-term first request / retry after plain 401 / retry after cookie 401 with anonymity and algorithms / the same with unassigned feature bits set in the cookie / subsequent MD5 / subsequent SHA256 / retry after 438 / retry after a second 401 naming the realm in another letter case / subsequent request after a second 401 for another realm; each x fingerprint on/off x both transports; the credential states again with a 70-byte user name / 129-byte password and with a non-ASCII user name / a password that OpaqueString enforcement rewrites) x {{request, indication}} (methods 0x003 and 0xFFF on a subset in the quick tier); every emitted packet is parsed by the independent TLV reader: class / method / fresh id, application attributes first (one per type, first-insertion position, last value), then only the mechanism's credential attributes with the client's (not the application's) values, then at most one MI, SHA256, FINGERPRINT in that order, each verifying under the configured credentials by independent HMAC / CRC, no type twice, FINGERPRINT last when configured; retransmissions along timer runs are byte-identical; clients built with the optional builder calls in each of the six orders (limits 1 and 10) behave alike in every credential state", n_lists, max_len, n_reps),
+            rule: format!("{} application attribute lists (every sequence of length <= {} over a 12-entry alphabet: two SOFTWARE values, PRIORITY, and pre-populated USERNAME / REALM / NONCE / USERHASH / PASSWORD-ALGORITHM / PASSWORD-ALGORITHMS / MESSAGE-INTEGRITY / MESSAGE-INTEGRITY-SHA256 / FINGERPRINT) x {} credential-state representatives (15 states reached by replaying short histories on the real client: no mechanism; short-term unlearned / learned MI / learned SHA256 / configured MI / SHA256; long-term first request / retry after plain 401 / retry after cookie 401 with anonymity and algorithms / the same with unassigned feature bits set in the cookie / subsequent MD5 / subsequent SHA256 / retry after 438 / retry after a second 401 naming the realm in another letter case / subsequent request after a second 401 for another realm; each x fingerprint on/off x both transports; the credential states again with a 70-byte user name / 129-byte password and with a non-ASCII user name / a password that OpaqueString enforcement rewrites) x {{request, indication}} (methods 0x003 and 0xFFF on a subset in the quick tier); every emitted packet is parsed by the independent TLV reader: class / method / fresh id, application attributes first (one per type, first-insertion position, last value), then only the mechanism's credential attributes with the client's (not the application's) values, then at most one MI, SHA256, FINGERPRINT in that order, each verifying under the configured credentials by independent HMAC / CRC, no type twice, FINGERPRINT last when configured; retransmissions along timer runs are byte-identical; clients built with the optional builder calls in each of the six orders (limits 1 and 10) behave alike in every credential state; the largest packets: in every credential state, requests and indications carrying an UNKNOWN-ATTRIBUTES of n codes (alone or after a 4-byte SOFTWARE) with n swept so that the packet size runs through the last 48 bytes up to the largest STUN message (65,552 bytes) and beyond, into a 70,000-byte buffer - emitted whole and well-formed up to 65,552 bytes, refused without a packet beyond", n_lists, max_len, n_reps),
             assumptions: vec!["which credential attributes each long-term state requires is C08's question; C13 checks form, replacement and verification".into()],
-            required_symbols: vec!["no-mechanism", "short-term/unlearned", "short-term/learned-SHA256", "long-term/first-request", "long-term/retry-after-401-cookie", "long-term/subsequent-SHA256", "long-term/retry-after-438", "long-term-indication-refused", "retransmission-identical", "client-builder-routes"],
+            required_symbols: vec!["no-mechanism", "short-term/unlearned", "short-term/learned-SHA256", "long-term/first-request", "long-term/retry-after-401-cookie", "long-term/subsequent-SHA256", "long-term/retry-after-438", "long-term-indication-refused", "retransmission-identical", "client-builder-routes", "largest-packets", "beyond-the-largest-packet-refused"],
             min_outcomes: 12,
             exhaustive: true,
             bounds: json!({"max_list_len": max_len, "alphabet": 12, "representatives": n_reps}),
